@@ -135,4 +135,16 @@ theorem C04_canonical_stable {g : EG} (c : Canonical g) (f : Nat) (y : Row) (hy 
   simp only [if_true]
   rw [c2 hid]
 
+/-- **The database a command leaves behind is a fixpoint of the rebuild**: running the rebuild
+loop again on a canonical database returns it unchanged at once — so "everything recorded as
+equal is already visible to the very next query": nothing is left for a later rebuild to do. -/
+theorem C04_idempotent {g : EG} (c : Canonical g) (h : g.WF) (fuel : Nat) :
+    rebuild (fuel + 1) g = (g, true) := by
+  simp only [rebuild]
+  rw [rebuildPass_canonical_id c]
+  have : g.sameAs g = true := by
+    unfold EG.sameAs
+    simp
+  rw [if_pos this]
+
 end EgglogVerif.EGraph
